@@ -32,6 +32,9 @@ Arguments XErr e%N.
 Inductive tcase :=
 | CParse (t : list N) (o : pobs)
 | CStr (v : jv) (r : repl) (space : jv) (o : sobs) (rt : robs) (m : option sobs)
+(* a history of serialisations on ONE runtime; per step: the result as seen right after the call (a copy) and the
+   same retained result (for MarshalJSON: the very slice that was returned, not copied) read after the whole history *)
+| CHist (h : list hstep) (o : list (sobs * sobs))
 | CFail.
 
 (* ------------------------------------------------------------------ *)
@@ -232,8 +235,16 @@ Definition check_str (v : jv) (r : repl) (space : jv) (o : sobs) (rt : robs) (m 
   | Some mo => sout_match (marshal v) mo
   end.
 
+Fixpoint check_hist (es : list sout) (os : list (sobs * sobs)) : bool :=
+  match es, os with
+  | [], [] => true
+  | e :: es', (now, later) :: os' => sout_match e now && sout_match e later && check_hist es' os'
+  | _, _ => false
+  end.
+
 Definition check_case (c : tcase) : bool :=
   match c with
+  | CHist h o => check_hist (run_history h) o
   | CParse t o => check_parse t o
   | CStr v r space o rt m => check_str v r space o rt m
   | CFail => false
@@ -253,11 +264,13 @@ Definition mismatch_ids := mismatch_from 0%N.
 Inductive exp :=
 | EParse (lone_surrogate_exception : bool) (r : option pval)
 | EStr (s ms : sout)
+| EHist (rs : list sout)
 | ENone.
 
 Definition expected (c : tcase) : exp :=
   match c with
   | CParse t _ => EParse (lone_surrogate_input t) (parse_expected t)
   | CStr v r space _ _ _ => EStr (stringify v r space) (marshal v)
+  | CHist h _ => EHist (run_history h)
   | CFail => ENone
   end.
